@@ -2,6 +2,7 @@
  * libxxhash as independent oracles.  One case per input line, one canonical result per output line. */
 #include "hcommon.h"
 #include <zlib.h>
+#include <sys/mman.h>
 #include <xxhash.h>
 
 extern uint32_t carquet_crc32(const uint8_t* data, size_t length);
@@ -164,7 +165,26 @@ int main(void) {
         }
         h_split();
         if (h_ntok == 0) { puts("ERR empty"); continue; }
-        if (!strcmp(h_tok[0], "crc") && h_ntok == 3) {
+        if (!strcmp(h_tok[0], "crcbig") && h_ntok == 3) {
+            /* crcbig <length decimal> <seed>: one call on a buffer longer than 2^32 bytes (mostly untouched
+               zero pages with a few bytes set), against zlib fed in 1 GiB pieces and against carquet's own
+               update chain in 1 GiB pieces */
+            size_t n = (size_t)strtoull(h_tok[1], NULL, 10); unsigned seed = (unsigned)atoi(h_tok[2]);
+            uint8_t* p = mmap(NULL, n, PROT_READ | PROT_WRITE, MAP_PRIVATE | MAP_ANONYMOUS | MAP_NORESERVE, -1, 0);
+            if (p == MAP_FAILED) { puts("ERR mmap"); fflush(stdout); continue; }
+            for (int k = 0; k < 64; k++) { seed = seed * 1103515245u + 12345u; size_t pos = ((size_t)seed * 2654435761u) % n; p[pos] = (uint8_t)(seed >> 16) | 1; }
+            p[n - 1] = 0x5a; p[0] = 0xa5;
+            uint32_t c = carquet_crc32(p, n);
+            uLong z = crc32(0L, Z_NULL, 0); uint32_t u = 0; int first = 1;
+            for (size_t off = 0; off < n; ) {
+                size_t chunk = n - off; if (chunk > ((size_t)1 << 30)) chunk = (size_t)1 << 30;
+                z = crc32(z, p + off, (uInt)chunk);
+                u = first ? carquet_crc32(p + off, chunk) : carquet_crc32_update(u, p + off, chunk);
+                first = 0; off += chunk;
+            }
+            printf("OK %x %x %x\n", c, (uint32_t)z, u);
+            munmap(p, n);
+        } else if (!strcmp(h_tok[0], "crc") && h_ntok == 3) {
             size_t al = (size_t)atoi(h_tok[1]), n; void* base;
             uint8_t* p = h_unhex(h_tok[2], &n, al, &base);
             uint32_t c = carquet_crc32(p, n);
